@@ -632,7 +632,10 @@ fn check_status_update(g: &mut W) {
                 st.gm_identity == now_state.grandmaster_identity.0
                     && st.priority1 == now_state.grandmaster_priority_1
                     && st.priority2 == now_state.grandmaster_priority_2
-                    && st.steps_removed.wrapping_add(1) == now_state.steps_removed
+                    // one step further from the grandmaster than the server; the statement does not say what
+                    // 65535 becomes, so staying at the 16-bit maximum is fine - wrapping to 0 ("I am the
+                    // grandmaster's neighbour") is not
+                    && st.steps_removed.checked_add(1).unwrap_or(u16::MAX) == now_state.steps_removed
             }),
             _ => false,
         };
@@ -640,9 +643,10 @@ fn check_status_update(g: &mut W) {
             "C44",
             "status-only-from-matching-response",
             ok,
-            "published CSPTP state changed to {:?} without a measurement-producing response carrying that status (req {:?})",
+            "published CSPTP state changed to {:?} without a measurement-producing response carrying that status (req {:?}; status TLVs of the responses that explain the measurement: {:?})",
             state_key(&now_state),
-            g.c44.cur.as_ref().map(|r| (r.idx, r.seq, r.in_half.is_some()))
+            g.c44.cur.as_ref().map(|r| (r.idx, r.seq, r.in_half.is_some())),
+            g.c44.cur.as_ref().map(|r| r.explaining_status.iter().map(|s| (s.gm_identity, s.priority1, s.priority2, s.steps_removed)).collect::<Vec<_>>())
         );
     }
     g.c44.last_state = Some(now_state);
